@@ -764,7 +764,19 @@ def _expand_partials(parsed) -> None:
                 root = target
                 while isinstance(root, ast.Attribute):
                     root = root.value
-                if not isinstance(root, ast.Name) or not all(const_like(a) for a in pc.args[1:]) or not all(const_like(k.value) for k in pc.keywords):
+                def stable(e) -> bool:
+                    """a constant, or - inside a function - a plain name that function binds at most once and a parameter never (what the partial
+                    captured when it was made is what the name still holds when the partial is called)"""
+                    if const_like(e):
+                        return True
+                    if isinstance(e, ast.Name) and isinstance(sc, (ast.FunctionDef, ast.AsyncFunctionDef)):
+                        params_ = {a_.arg for a_ in ast.walk(sc.args) if isinstance(a_, ast.arg)}
+                        nst = sum(1 for x in ast.walk(sc) if isinstance(x, ast.Name) and x.id == e.id and isinstance(x.ctx, (ast.Store, ast.Del)))
+                        return nst == 0 if e.id in params_ else nst <= 1
+                    return False
+                if not isinstance(root, ast.Name) or not all(stable(a) for a in pc.args[1:]) or not all(stable(k.value) for k in pc.keywords):
+                    continue
+                if isinstance(sc, (ast.FunctionDef, ast.AsyncFunctionDef)) and root is not target and not stable(root):
                     continue
                 nm = st.targets[0].id
                 stores = [x for x in ast.walk(tree) if isinstance(x, ast.Name) and x.id == nm and isinstance(x.ctx, (ast.Store, ast.Del))]
